@@ -1,4 +1,7 @@
 """C03 - a failing component affects only its dependents and is always accounted for."""
+import signal
+import time
+
 from hypothesis import strategies as st
 
 from vp import dyn
@@ -9,7 +12,13 @@ RULE = ("random acyclic component graphs (all component types incl. registry poi
         "parsers) where every node independently gets a fault (deliberate skip, content error, failed "
         "command, timeout, two arbitrary exception classes), multi-output parsers whose elements fail "
         "individually with continue_on_error on/off, 0-2 observers that raise, skip recording on/off, "
-        "five ways of handing the graph to the engine. Oracle: the evaluation never raises; broker values "
+        "five ways of handing the graph to the engine; the execution context the caller puts into the "
+        "broker (none / host collection / host archive) per evaluation of a 1-2 evaluation history, "
+        "datasource time limits, and components that work for longer than any time limit still running "
+        "(simulated by fast-forwarding a pending real-time timer, so a datasource's own limit really "
+        "expires through the engine's signal handler and a limit that outlived its datasource really "
+        "lands in whoever runs next - a later component or the caller after the evaluation returned). "
+        "Oracle: the evaluation never raises and nothing of it reaches the caller afterwards; broker values "
         "equal the reference evaluator's exactly; every non-skip fault object is recorded with a "
         "traceback under the raising component or a registry point above/below it; skips only when "
         "recording is on and under the skipping component; no record under any other key. Non-trivial: "
@@ -20,6 +29,9 @@ ASSUMPTIONS = [
     "ContentException inside a bare dr.ComponentType component is not generated (it is a subclass of "
     "the skip signal and the statement does not say which rule wins there)",
     "component bodies never return None; nothing depends on a rule",
+    "a slow component is modelled by elapsing the real-time timer that is pending when its body starts "
+    "(ITIMER_REAL re-armed to a fraction of a millisecond and waited for); datasource time limits are "
+    ">= 30 s so that none expires on its own while a case runs; the check runs in the main thread",
 ]
 EXCLUDED = ["ContentException raised by a bare dr.ComponentType component (see assumptions)"]
 
@@ -39,7 +51,88 @@ def cases(draw, tier="quick"):
         "exc": st.sampled_from(["boom", "boom2", "skip", "content"]),
         "kind": st.sampled_from(["function", "function", "partial", "object", "method"])}), max_size=2))
     case["repeat"] = draw(st.sampled_from([1, 1, 1, 2]))
+    # what the caller puts into the broker of each evaluation: nothing, the context of a collection on the
+    # host (the engine then limits the time of every datasource) or the context of an unpacked archive
+    case["contexts"] = draw(st.lists(st.sampled_from(CONTEXTS), min_size=case["repeat"], max_size=case["repeat"]))
+    # time limit written in the decorator of a datasource (absent = the engine's default)
+    case["timeouts"] = dict((str(i), draw(st.sampled_from(TIMEOUTS))) for i, nd in enumerate(case["nodes"])
+                            if nd["t"] == "datasource" and draw(st.booleans()))
+    # components whose body works for longer than any time limit that is still running when it starts
+    case["slow"] = sorted(draw(st.sets(st.integers(0, n - 1), max_size=4)))
     return case
+
+
+CONTEXTS = ["none", "host", "host", "archive"]
+TIMEOUTS = [30, 60, 600, 3600]
+
+
+def context_class(kind):
+    from insights.core import context
+    return {"host": context.HostContext, "archive": context.HostArchiveContext}.get(kind)
+
+
+def elapse():
+    """The code calling this works for longer than a pending real-time timer still has to run.
+
+    Returns 0 when no timer is pending (always, unless something armed one and did not cancel it),
+    the seconds that were left otherwise.  The timer is re-armed to expire at once and waited for, so
+    whatever the installed SIGALRM handler raises is raised here, as it would be in long running code.
+    A pending timer without a Python handler is cancelled instead (it would end the process); the
+    seconds left are returned negated."""
+    left = signal.getitimer(signal.ITIMER_REAL)[0]
+    if left <= 0:
+        return 0
+    if not callable(signal.getsignal(signal.SIGALRM)):
+        signal.setitimer(signal.ITIMER_REAL, 0)
+        return -left
+    signal.setitimer(signal.ITIMER_REAL, 0.0002)
+    for _ in range(40000):
+        time.sleep(0.0005)
+        if signal.getitimer(signal.ITIMER_REAL)[0] <= 0:
+            break
+    for _ in range(3):       # a handler that is due runs at the latest here
+        time.sleep(0)
+    return left
+
+
+def selftest():
+    """The slow-component model itself: a pending alarm is delivered inside elapse(), none is left over,
+    and without a pending alarm elapse() does nothing."""
+    class Fired(Exception):
+        pass
+
+    def handler(signum, frame):
+        raise Fired()
+    old = signal.getsignal(signal.SIGALRM)
+    try:
+        assert elapse() == 0
+        signal.signal(signal.SIGALRM, handler)
+        signal.alarm(1000)
+        try:
+            elapse()
+        except Fired:
+            pass
+        else:
+            raise AssertionError("elapse() did not deliver the pending alarm")
+        assert signal.getitimer(signal.ITIMER_REAL)[0] == 0 and elapse() == 0
+        signal.signal(signal.SIGALRM, signal.SIG_DFL)
+        signal.alarm(1000)
+        assert elapse() < 0 and signal.getitimer(signal.ITIMER_REAL)[0] == 0
+    finally:
+        signal.setitimer(signal.ITIMER_REAL, 0)
+        signal.signal(signal.SIGALRM, old if old is not None else signal.SIG_DFL)
+
+
+def effective(case, expired):
+    """The case the reference evaluator sees when the time limit of the datasources `expired` ran out
+    inside their bodies (slow datasources during a collection on the host): the statement treats that
+    like any other failure of the datasource.  (That a limit is enforced at all is not part of the
+    statement, so the set is taken from what happened, not from the case.)"""
+    if not expired:
+        return case
+    out = dict(case)
+    out["nodes"] = [dict(nd, fault="timeout") if i in expired else nd for i, nd in enumerate(case["nodes"])]
+    return out
 
 
 def relatives(case, i):
@@ -62,9 +155,54 @@ def check(case):
     from insights.core import dr
     from insights.core.exceptions import SkipComponent
     b = dyn.build(case)
+    old_alarm = signal.getsignal(signal.SIGALRM)
     try:
         drv = case["driver"]
         active = dyn.active_set(case, drv)
+        contexts = list(case.get("contexts") or ["none"] * int(case.get("repeat", 1)))
+        slow = set(case.get("slow", []))
+        for i, secs in case.get("timeouts", {}).items():
+            # what `@datasource(..., timeout=secs)` stores
+            dr.get_delegate(b.comps[int(i)]).timeout = secs
+        state = {"unhandled": [], "expired": set()}
+
+        def hook(i, t, elem):
+            if i not in slow:
+                return
+            owner = getattr(signal.getsignal(signal.SIGALRM), "__self__", None)
+            try:
+                left = elapse()
+            except Exception as e:
+                if t == "datasource" and (owner is dr.get_delegate(b.comps[i]) or not isinstance(owner, dr.ComponentType)):
+                    # the datasource's own time limit (not one installed for another component): a fault
+                    # of this node like any other
+                    b.raised[(i, elem)] = e
+                    state["expired"].add(i)
+                raise
+            if left < 0:
+                state["unhandled"].append((i, -left))
+        b.hook = hook
+
+        def evaluate(ctx, nth):
+            cls = context_class(ctx)
+
+            def prepare(broker):
+                if cls is not None:
+                    broker[cls] = cls()
+            broker, escaped = dyn.execute(case, b, drv, observers, graphs=graphs, prepare=prepare)
+            if escaped is not None:
+                raise Violation("an exception escaped evaluation %d (context %s): %s: %s" % (
+                    nth, ctx, type(escaped).__name__, escaped))
+            # the caller goes on working after the evaluation has returned
+            try:
+                left = elapse()
+            except Exception as e:
+                raise Violation("an exception of evaluation %d (context %s) reached the caller after the evaluation "
+                                "had returned: %s: %s" % (nth, ctx, type(e).__name__, e))
+            if left < 0 or state["unhandled"]:
+                raise Violation("evaluation %d (context %s) left a real-time alarm pending without a handler (it ends "
+                                "the process when it expires): %r" % (nth, ctx, state["unhandled"] or -left))
+            return broker
         observers = []
         for ob in case.get("bad_observers", []):
             def make(ob=ob):
@@ -87,21 +225,25 @@ def check(case):
             ctype = dr.ComponentType if ob["on"] == "all" else dyn.type_of(ob["on"])
             observers.append((make(), ctype))
         graphs = {}
-        if int(case.get("repeat", 1)) > 1:
-            # a first evaluation of the same graph object (fresh broker, same faults): whatever it leaves
-            # behind must not change how the second one accounts for its failures
-            dyn.execute(case, b, drv, observers, graphs=graphs)
+        for nth, ctx in enumerate(contexts[:-1]):
+            # earlier evaluations of the same graph object (fresh broker, same faults, their own context):
+            # whatever they leave behind must not change how the last one accounts for its failures
+            evaluate(ctx, nth + 1)
             b.log[:] = []
             b.raised.clear()
-        broker, escaped = dyn.execute(case, b, drv, observers, graphs=graphs)
-        if escaped is not None:
-            raise Violation("an exception escaped the evaluation: %s: %s" % (type(escaped).__name__, escaped))
+            state["expired"].clear()
+        ctx = contexts[-1]
+        broker = evaluate(ctx, len(contexts))
+        ctx_cls = context_class(ctx)
+        case = effective(case, state["expired"])
         ex = dyn.model(case, active)
         nodes = case["nodes"]
         comps = b.comps
         # (b) values exactly as the model
         got_val = {}
         for c, v in broker.instances.items():
+            if c is ctx_cls:
+                continue
             if c not in b.index:
                 raise Violation("value stored for a component outside the graph: %r" % (c,))
             got_val[b.index[c]] = dyn.norm_value(b, v)
@@ -185,10 +327,30 @@ def check(case):
             labels.append("failing-observer")
         if any(relatives(case, i) for i in raised_nodes):
             labels.append("fault-near-registry-point")
+        labels.append("ctx=" + "+".join(contexts))
+        if ctx == "host":
+            # the classes the time limit machinery has to get right (last evaluation)
+            calls = [e for e in b.log if e[0] == "call"]
+            failed_ds = None          # the datasource invoked last so far ended in a fault
+            for (_c, i, _a, _e) in calls:
+                if nodes[i]["t"] == "datasource":
+                    failed_ds = i in ex.faults
+                    if i in state["expired"]:
+                        labels.append("host:datasource-exceeds-time-limit")
+                elif failed_ds and i in slow:
+                    labels.append("host:slow-component-follows-failed-datasource")
+                    if i in ex.val:
+                        labels.append("host:slow-healthy-component-follows-failed-datasource")
+            if failed_ds:
+                labels.append("host:last-datasource-failed")
+            labels = sorted(set(labels), key=labels.index)
         if nontrivial:
             labels.append("nontrivial")
         return {"nontrivial": nontrivial, "labels": labels}
     finally:
+        signal.setitimer(signal.ITIMER_REAL, 0)
+        signal.signal(signal.SIGALRM, old_alarm if old_alarm is not None else signal.SIG_DFL)
+        b.hook = None
         dyn.cleanup(b)
 
 
@@ -211,6 +373,11 @@ REGRESSIONS = [
         dict(_N, t="datasource", fault="content"), dict(_N, t="component", decl=[["opt", 0]])])),
     Reg("datasource-timeout-lost", "faults", dict(_BASE, store_skips=False, nodes=[
         dict(_N, t="datasource", fault="timeout")])),
+    # the same class through the engine's own alarm handler: collection on the host, the datasource works
+    # for longer than its time limit
+    Reg("datasource-real-timeout", "faults", dict(_BASE, store_skips=False, contexts=["host"], slow=[0, 2],
+                                                  timeouts={"0": 30}, nodes=[
+        dict(_N, t="datasource"), dict(_N, t="datasource", multi=2), dict(_N, t="component", decl=[["opt", 0], ["req", 1]])])),
     Reg("observer-raises", "faults", dict(_BASE, store_skips=True, nodes=[
         dict(_N, t="datasource", fault="cpe"), dict(_N, t="regpoint", decl=[["grp", [0]]]),
         dict(_N, t="parser", decl=[["req", 1]]), dict(_N, t="rule", decl=[["opt", 2]])],
